@@ -498,6 +498,28 @@ def gen_rdata(rng, cls, ty, origin):
         w = struct.pack("!BBHB", 1, 0, u(rng, 16), len(s)) + s
     elif tn == "ZONEMD":
         w = struct.pack("!IBB", u(rng, 32), 1, 1) + rb(rng, 48, 48)
+    elif ty == 257:  # CAA: flags, tag (mixed case letters/digits), value
+        tag = bytes(rng.choice(b"issueISSUEwild09") for _ in range(rng.randint(1, 8)))
+        w = bytes([u(rng, 8), len(tag)]) + tag + rb(rng, 0, 12)
+    elif ty == 52:  # TLSA
+        w = bytes([rng.randrange(4), rng.randrange(2), rng.randrange(3)]) + rb(rng, 1, 32)
+    elif ty == 44:  # SSHFP
+        w = bytes([rng.randrange(5), rng.randrange(3)]) + rb(rng, 1, 32)
+    elif ty == 50:  # NSEC3
+        salt, nxt = rb(rng, 0, 8), rb(rng, 20, 20)
+        ws = ref_bitmap([rng.choice([1, 2, 6, 46, 47, 257, 1234]) for _ in range(rng.randint(0, 4))])
+        w = struct.pack("!BBHB", 1, rng.randrange(2), u(rng, 16), len(salt)) + salt + bytes([len(nxt)]) + nxt + b"".join(bytes([a, len(b)]) + b for a, b in ws)
+    elif ty == 62:  # CSYNC
+        ws = ref_bitmap([rng.choice([1, 2, 28]) for _ in range(rng.randint(1, 3))])
+        w = struct.pack("!IH", u(rng, 32), rng.randrange(4)) + b"".join(bytes([a, len(b)]) + b for a, b in ws)
+    elif ty == 256:  # URI
+        w = struct.pack("!HH", u(rng, 16), u(rng, 16)) + bytes(rng.choice(b"HTTPhttp:/Aa.") for _ in range(rng.randint(1, 20)))
+    elif ty == 99:  # SPF
+        w = b"".join(cstr(bytes(rng.choice(b"V=SPFv1 aA") for _ in range(rng.randint(0, 9)))) for _ in range(rng.randint(1, 3)))
+    elif ty == 108:  # EUI48
+        w = rb(rng, 6, 6)
+    elif ty == 61:  # OPENPGPKEY
+        w = rb(rng, 1, 30)
     else:
         w = rb(rng, 0, 20)
     return [w], [[5, w]]
@@ -505,7 +527,8 @@ def gen_rdata(rng, cls, ty, origin):
 
 NAME_TYPES = [(1, T[x]) for x in ("NS CNAME PTR DNAME NSAP_PTR MX AFSDB RT KX LP RP PX SOA NAPTR SRV RRSIG SIG NSEC TKEY "
                                   "TSIG HIP DSYNC SVCB HTTPS IPSECKEY AMTRELAY").split()] + [(3, T["A"])]
-PLAIN_TYPES = [(1, T[x]) for x in "A AAAA TXT HINFO DNSKEY DS NSEC3PARAM ZONEMD".split()] + [(1, 65280), (1, 4660)]
+PLAIN_TYPES = [(1, T[x]) for x in "A AAAA TXT HINFO DNSKEY DS NSEC3PARAM ZONEMD".split()] + [(1, 65280), (1, 4660)] + \
+    [(1, t) for t in (257, 52, 44, 50, 62, 256, 99, 108, 61)]
 
 
 SINGLETONS = {T["SOA"], T["NXT"], T["DNAME"], T["NSEC"], T["CNAME"]}
